@@ -13,7 +13,7 @@ import itertools
 import os
 
 from . import ref
-from .lab import CONTENTS, LFS, MD5, hi, make_odb, put_raw  # noqa: F401
+from .lab import BULK, BULK_MD5, BULK_N, CONTENTS, LFS, MD5, hi, make_odb, put_raw  # noqa: F401
 from .world import install_seams, objects_only, store_snapshot
 
 install_seams()
@@ -132,12 +132,17 @@ TREES = {
     "T5": {"c": "z", "d": "y"},          # with T1,T2: three pairwise-sharing
     "T6": {"s/k": "v", "s/t/e": "e"},    # disjoint from the others, nested, empty file
 }
+# one directory with BULK_N files (crosses every batching / paging constant)
+TREES["TB"] = {f"f{i:04d}": f"bulk{i}" for i in range(BULK_N)}
+MD5 = dict(MD5, **BULK_MD5)
+CONTENTS = dict(CONTENTS, **BULK)
 LISTING = {t: {rel: MD5[c] for rel, c in files.items()} for t, files in TREES.items()}
 TREE_BYTES = {t: ref.tree_bytes(l) for t, l in LISTING.items()}
 TREE_OID = {t: ref.md5(b) + ".dir" for t, b in TREE_BYTES.items()}
 OID_TREE = {v: k for k, v in TREE_OID.items()}
 FILE_OID = {c: MD5[c] for c in ("x", "y", "z", "w", "v", "e")}
 OID_BYTES = {MD5[c]: CONTENTS[c] for c in FILE_OID}
+OID_BYTES.update({BULK_MD5[c]: BULK[c] for c in BULK})
 OID_BYTES.update({TREE_OID[t]: TREE_BYTES[t] for t in TREES})
 
 SCENARIOS = {
@@ -148,6 +153,7 @@ SCENARIOS = {
     "twopaths": ["T3"],
     "three": ["T1", "T2", "T5"],
     "twopaths+sharing": ["T3", "T1", "T2"],
+    "bulk": ["TB"],
 }
 
 
@@ -201,14 +207,15 @@ class XWorld:
     """Source store (all objects), destination store on a FaultFS, optional index."""
 
     def __init__(self, w, trees, src_kind="local", dest_kind="base", use_index=False,
-                 dest_initial=(), src_missing=(), verify=False, corrupt=()):
+                 dest_initial=(), src_missing=(), verify=False, corrupt=(), hash_name="md5"):
         from dvc_data.hashfile.db import HashFileDB
         from dvc_data.hashfile.db.index import ObjectDBIndex
         from dvc_data.hashfile.db.local import LocalHashFileDB
 
         self.w = w
         self.trees = trees
-        self.src = make_odb(src_kind, w.p("src"))
+        self.hash_name = hash_name
+        self.src = make_odb(src_kind, w.p("src"), hash_name=hash_name)
         allo = files_of_trees(trees) + [TREE_OID[t] for t in trees]
         fill_store(self.src, [o for o in allo if o not in src_missing])
         for o in corrupt:
@@ -218,7 +225,7 @@ class XWorld:
         self.ffs.store_root = w.p("dest")
         os.makedirs(w.p("dest"), exist_ok=True)
         cls = LocalHashFileDB if dest_kind == "local" else HashFileDB
-        self.dest = cls(self.ffs, w.p("dest"), verify=verify)
+        self.dest = cls(self.ffs, w.p("dest"), verify=verify, hash_name=hash_name)
         fill_store(self.dest, dest_initial)
         self.index = None
         if use_index:
@@ -230,10 +237,11 @@ class XWorld:
             self.index.close()
 
     def request(self, trees, closed=True, extra_files=()):
-        ids = {hi(TREE_OID[t]) for t in trees}
+        hn = self.hash_name
+        ids = {hi(TREE_OID[t], hn) for t in trees}
         if closed:
-            ids |= {hi(o) for o in files_of_trees(trees)}
-        ids |= {hi(o) for o in extra_files}
+            ids |= {hi(o, hn) for o in files_of_trees(trees)}
+        ids |= {hi(o, hn) for o in extra_files}
         return ids
 
     def transfer(self, ids, plan=None, order=None, shallow=True, **kw):
